@@ -255,6 +255,21 @@ class Server:
             # out its whole timeout, blocking the eventual close of that stream.
             self._stopped = True
             self._pipeline_notfull.notify_all()
+
+            # The servlet expects to be idle when it is stopped: an end marker that travels
+            # through a busy servlet can overtake results (competing workers, batching),
+            # after which a worker may block for ever writing to a pipe that nobody reads
+            # any more. Requests still in flight at this point have been abandoned by
+            # their callers (timed-out calls, abandoned streams); let them come out first.
+            # Give up if nothing comes out for a minute (e.g. a worker has died).
+            n, t = len(self._uid_to_futures), perf_counter()
+            while n:
+                self._pipeline_notfull.wait(0.1)
+                k = len(self._uid_to_futures)
+                if k != n:
+                    n, t = k, perf_counter()
+                elif perf_counter() - t > 60:
+                    break
         if self._onboard_thread is not None:
             # Let the onboarding thread finish moving the accepted inputs (e.g. those of
             # an abandoned stream) into the pipeline while the workers are still there to
@@ -548,6 +563,16 @@ class AsyncServer:
         return self
 
     async def __aexit__(self, *args):
+        # See `Server.__exit__`: let the requests that are still in flight come out
+        # before the servlet is stopped.
+        n, t = len(self._uid_to_futures), perf_counter()
+        while n:
+            await asyncio.sleep(0.05)
+            k = len(self._uid_to_futures)
+            if k != n:
+                n, t = k, perf_counter()
+            elif perf_counter() - t > 60:
+                break
         if self._onboard_thread is not None:
             # See `Server.__exit__`.
             self._input_buffer.put(None)
